@@ -3,6 +3,7 @@
 //! precondition, >= 2 = obligation violated (code identifies the failed clause).
 use crate::common::*;
 use constriction::stream::{stack::AnsCoder, Decode, Encode};
+use constriction::backends::{ReadWords, WriteWords};
 
 /// C01 `c01_step`: from any `Inv_ans` raw state, encode then decode restores everything.
 macro_rules! k_c01_step {
@@ -265,3 +266,166 @@ k_c09_ans!(k_c09_ans_u8_u16_p4, u8, u16, u8, 4);
 k_c09_ans!(k_c09_ans_u8_u16_p8, u8, u16, u8, 8);
 k_c09_ans!(k_c09_ans_u16_u32_p12, u16, u32, u16, 12);
 k_c09_ans!(k_c09_ans_u32_u64_p24, u32, u64, u32, 24);
+
+/// C01 `c01_batch_eq_loop`: every batch form leaves the coder exactly where the per-symbol loop leaves
+/// it and returns the same result -- also when the batch aborts in the middle (impossible symbol, model
+/// error of the fallible-iterator form, failing sink).
+macro_rules! k_c01_batch {
+    ($name:ident, $W:ty, $S:ty, $Pr:ty, $P:expr) => {
+        #[no_mangle]
+        pub extern "C" fn $name(state: $S, w0: $W, len: u32, cuts: &[$Pr; 4], syms: &[u8; 2], form: u32, err_at: u32, fail_at: u32) -> u32 {
+            if len > 1 || form > 4 || fail_at > 3 {
+                return 1;
+            }
+            if len == 1 && state < ((1 as $S) << (<$S>::BITS - <$W>::BITS)) {
+                return 1;
+            }
+            let m0 = Cuts::<$Pr, $P> { c1: cuts[0], c2: cuts[1] };
+            let m1 = Cuts::<$Pr, $P> { c1: cuts[2], c2: cuts[3] };
+            // symbols 0..=2 are encodable, 3 is outside the support (aborts the batch)
+            if !m0.valid() || !m1.valid() || syms[0] > 3 || syms[1] > 3 {
+                return 1;
+            }
+            let sink = FailAt { inner: ArrStack { words: [w0, 0, 0, 0], len: len as usize }, writes: 0, fail_at: fail_at as usize };
+            let mut a = AnsCoder::<$W, $S, FailAt<$W, 4>>::from_raw_parts(sink, state);
+            let mut b = AnsCoder::<$W, $S, FailAt<$W, 4>>::from_raw_parts(sink, state);
+            // reference: the explicit per-symbol loop (in the order the batch form is documented to use)
+            let items = [(syms[0], m0), (syms[1], m1)];
+            let reversed = form == 1 || form == 3;
+            let mut ok_b = true;
+            let mut i = 0;
+            while i < 2 {
+                let j = if reversed { 1 - i } else { i };
+                if (form == 2 || form == 3) && err_at as usize == j {
+                    ok_b = false; // the fallible iterator yields Err at this item
+                    break;
+                }
+                let (sy, mo) = if form == 4 { (items[j].0, m0) } else { items[j] };
+                if b.encode_symbol(sy, mo).is_err() {
+                    ok_b = false;
+                    break;
+                }
+                i += 1;
+            }
+            let ok_a = match form {
+                0 => a.encode_symbols(items.iter().cloned()).is_ok(),
+                1 => a.encode_symbols_reverse(items.iter().cloned()).is_ok(),
+                2 => a
+                    .try_encode_symbols(items.iter().cloned().enumerate().map(|(k, x)| if k == err_at as usize { Err(()) } else { Ok(x) }))
+                    .is_ok(),
+                3 => a
+                    .try_encode_symbols_reverse(items.iter().cloned().enumerate().map(|(k, x)| if k == err_at as usize { Err(()) } else { Ok(x) }))
+                    .is_ok(),
+                _ => a.encode_iid_symbols(items.iter().map(|x| x.0), m0).is_ok(),
+            };
+            if ok_a != ok_b {
+                return 2;
+            }
+            let (ba, sa) = a.into_raw_parts();
+            let (bb, sb) = b.into_raw_parts();
+            if sa != sb {
+                return 3;
+            }
+            if ba.inner.len != bb.inner.len {
+                return 4;
+            }
+            let mut i = 0;
+            while i < 4 {
+                if i < ba.inner.len && ba.inner.words[i] != bb.inner.words[i] {
+                    return 5;
+                }
+                i += 1;
+            }
+            0
+        }
+    };
+}
+k_c01_batch!(k_c01_batch_u8_u16_p4, u8, u16, u8, 4);
+k_c01_batch!(k_c01_batch_u8_u16_p8, u8, u16, u8, 8);
+k_c01_batch!(k_c01_batch_u16_u32_p12, u16, u32, u16, 12);
+k_c01_batch!(k_c01_batch_u32_u64_p24, u32, u64, u32, 24);
+
+/// C01 decode-side batch forms: `decode_symbols`, `try_decode_symbols`, `decode_iid_symbols` yield what
+/// the per-symbol loop yields and leave the same raw parts.
+macro_rules! k_c01_batch_dec {
+    ($name:ident, $W:ty, $S:ty, $Pr:ty, $P:expr) => {
+        #[no_mangle]
+        pub extern "C" fn $name(state: $S, w0: $W, w1: $W, len: u32, cuts: &[$Pr; 4], form: u32) -> u32 {
+            if len > 2 || form > 2 {
+                return 1;
+            }
+            let m0 = Cuts::<$Pr, $P> { c1: cuts[0], c2: cuts[1] };
+            let m1 = Cuts::<$Pr, $P> { c1: cuts[2], c2: cuts[3] };
+            if !m0.valid() || !m1.valid() {
+                return 1;
+            }
+            let bulk = ArrStack::<$W, 4> { words: [w0, w1, 0, 0], len: len as usize };
+            let mut a = AnsCoder::<$W, $S, ArrStack<$W, 4>>::from_raw_parts(bulk, state);
+            let mut b = AnsCoder::<$W, $S, ArrStack<$W, 4>>::from_raw_parts(bulk, state);
+            let ms = [m0, if form == 2 { m0 } else { m1 }];
+            let r0 = match b.decode_symbol(ms[0]) {
+                Ok(x) => x,
+                Err(_) => return 3,
+            };
+            let r1 = match b.decode_symbol(ms[1]) {
+                Ok(x) => x,
+                Err(_) => return 3,
+            };
+            let mut got = [0u8; 2];
+            let mut n = 0usize;
+            match form {
+                0 => {
+                    for r in a.decode_symbols(ms.iter().cloned()) {
+                        match r {
+                            Ok(x) => {
+                                if n < 2 {
+                                    got[n] = x;
+                                }
+                                n += 1;
+                            }
+                            Err(_) => return 3,
+                        }
+                    }
+                }
+                1 => {
+                    for r in a.try_decode_symbols(ms.iter().cloned().map(Result::<_, ()>::Ok)) {
+                        match r {
+                            Ok(x) => {
+                                if n < 2 {
+                                    got[n] = x;
+                                }
+                                n += 1;
+                            }
+                            Err(_) => return 3,
+                        }
+                    }
+                }
+                _ => {
+                    for r in a.decode_iid_symbols(2, m0) {
+                        match r {
+                            Ok(x) => {
+                                if n < 2 {
+                                    got[n] = x;
+                                }
+                                n += 1;
+                            }
+                            Err(_) => return 3,
+                        }
+                    }
+                }
+            }
+            if n != 2 || got[0] != r0 || got[1] != r1 {
+                return 4;
+            }
+            let (ba, sa) = a.into_raw_parts();
+            let (bb, sb) = b.into_raw_parts();
+            if sa != sb || ba.len != bb.len {
+                return 5;
+            }
+            0
+        }
+    };
+}
+k_c01_batch_dec!(k_c01_batch_dec_u8_u16_p4, u8, u16, u8, 4);
+k_c01_batch_dec!(k_c01_batch_dec_u16_u32_p12, u16, u32, u16, 12);
+k_c01_batch_dec!(k_c01_batch_dec_u32_u64_p24, u32, u64, u32, 24);
